@@ -38,8 +38,7 @@ def main(tier, seed, replay=None):
                         'trigger': (kind, 'n2', kind, []), 'drops': [], 'rounds': 20, 'n': 3, 'pre_start': [],
                         'settle_rounds': 3, 'race_order': True})
     sk.model_check(v, tier)
-    traces = sk.run_scenarios(scs)
-    allv = sk.judge(v, traces, scs, LABELS, TERMINAL)
+    allv, _, _ = sk.run_and_judge(v, scs, LABELS, TERMINAL)
     if replay:
         print(allv)
     v.sample({'scenario': scs[0]})
